@@ -471,7 +471,7 @@ fn hostile_payload(rng: &mut Rng, tag: &str, allow_huge: bool) -> (String, Vec<u
         "b_param_len_negative", "b_param_len_beyond", "b_unknown_stmt", "d_bad_kind", "d_empty", "d_unknown", "c_bad_kind", "c_empty", "c_no_nul", "e_no_nul", "e_without_bind",
         "sync_alone", "flush_alone", "copydata_outside_copy", "copydone_outside_copy", "copyfail_outside_copy", "password_msg", "function_call", "terminate_then_more",
         "random_bytes", "half_frame_then_close", "parse_without_sync_then_close", "bind_name_invalid_utf8", "huge_len",
-        "q_error_echo_non_utf8", "q_error_echo_non_utf8", "p_poison_shared_text", "p_poison_shared_text", "p_trailing_query", "p_fewer_types_than_announced", "b_trailing_query", "d_trailing_query", "c_trailing_query", "mutated_batch", "mutated_batch", "mutated_batch",
+        "b_portal_invalid_utf8", "b_portal_invalid_utf8", "q_error_echo_non_utf8", "q_error_echo_non_utf8", "p_poison_shared_text", "p_poison_shared_text", "p_trailing_query", "p_fewer_types_than_announced", "b_trailing_query", "d_trailing_query", "c_trailing_query", "mutated_batch", "mutated_batch", "mutated_batch",
     ];
     let mut k = *rng.pick(&kinds);
     if k == "huge_len" && !allow_huge {
@@ -629,6 +629,30 @@ fn hostile_payload(rng: &mut Rng, tag: &str, allow_huge: bool) -> (String, Vec<u
             body.extend_from_slice(&tail);
             let ty = match k { "p_trailing_query" => b'P', "b_trailing_query" => b'B', "d_trailing_query" => b'D', _ => b'C' };
             v.extend(well_framed(ty, &body));
+            v.extend(proto::sync().bytes());
+            v
+        }
+        "b_portal_invalid_utf8" => {
+            // a Bind the pooler rewrites (known statement) whose portal or statement-related text is
+            // not UTF-8: a length computed from a lossy string would come out too short
+            let name = format!("u{}", rng.range(0, 9));
+            let mut v = proto::parse(&name, &format!("SELECT '{}'", tag), &[]).bytes();
+            let nbad = rng.range(1, 4) as usize;
+            let mut b: Vec<u8> = std::iter::repeat(0xffu8).take(nbad).collect(); // portal
+            b.push(b'p');
+            b.push(0);
+            b.extend(cs(&name));
+            b.extend_from_slice(&0i16.to_be_bytes());
+            b.extend_from_slice(&0i16.to_be_bytes());
+            // result formats: free bytes at the very end of the message
+            b.extend_from_slice(&2i16.to_be_bytes());
+            b.extend_from_slice(&[0, 0, 0, 1]);
+            v.extend(well_framed(b'B', &b));
+            let mut e: Vec<u8> = std::iter::repeat(0xffu8).take(nbad).collect();
+            e.push(b'p');
+            e.push(0);
+            e.extend_from_slice(&0i32.to_be_bytes());
+            v.extend(well_framed(b'E', &e));
             v.extend(proto::sync().bytes());
             v
         }
